@@ -166,8 +166,11 @@ def check_setup_errors(rep, facts, rule='R10.3'):
         if a is None:
             rep.anchor_lost(rule, key, 'public setup function', 'not found')
             continue
-        errs = fn_err_variants(facts, key)
-        rep.check(errs == want, rule, key, 'error-set', sorted(errs), 'exactly %s' % sorted(want), where(a))
+        if facts.impls_of('kem::Kem'):
+            errs = fn_err_variants(facts, key)
+            rep.check(errs == want, rule, key, 'error-set', sorted(errs), 'exactly %s' % sorted(want), where(a))
+        else:
+            rep.note('no Kem impl in this feature configuration: %s cannot be instantiated, error-set obligation is vacuous' % key)
         # no context on the Err path: the key schedule call is dominated by the success edge of the `?`
         kcalls = a.calls(lambda c: c.get('trait') == 'kem::Kem' and c['name'] == kemfn)
         if len(kcalls) != 1:
